@@ -137,12 +137,16 @@ def mappingLookup (maps : List Mapping) (avma : Nat) : Option Mapping :=
   | some m => if avma < m.end_ then some m else none
   | none => none
 
+/-- `removal_avma_range_start` (lib_mappings.rs:66-71) -/
+def removalStart (maps : List Mapping) (start : Nat) : Nat :=
+  match mappingLookup maps start with
+  | some o => o.start
+  | none => start
+
 /-- `add_mapping` (lib_mappings.rs:59-92). `none` = `BTreeMap::range` panics because the removal range
 starts after its end. -/
 def mappingAdd (maps : List Mapping) (m : Mapping) : Option (List Mapping) :=
-  let rs := match mappingLookup maps m.start with
-    | some o => o.start
-    | none => m.start
+  let rs := removalStart maps m.start
   if m.end_ < rs then none else
   let kept := maps.filter (fun o => !(decide (rs ≤ o.start) && decide (o.start < m.end_)))
   some (m :: kept.filter (fun o => o.start ≠ m.start))
